@@ -27,7 +27,7 @@ KEYS = [" ", "A", "B"]
 def cases(tier, seed):
     R = random.Random("c20/%d" % seed)
     out = []
-    n = 120 if tier == "quick" else 2500
+    n = 120 if tier == "quick" else 10000
     for i in range(n):
         nf = R.choice([1, 2, 3, 3, 5])
         hsel = R.choice(["none", "scalar", "list", "list", "list_perm"])
